@@ -785,3 +785,150 @@ def no_refusal_on_grid(ctx, rid, fi, grids, inline_depth=2, what="legal values")
     R.check(rid, not refused, ctx.fq(fi), mod=fi.module, node=refused[0][1].node if refused else fi.node, function=ctx.fq(fi),
             expected=f"every combination of {what} is processed", found=f"refused: { {k: hex(v) if isinstance(v, int) and v > 255 else v for k, v in refused[0][0].items()} }" if refused else "",
             key_extra=fi.qualname)
+
+
+def taken_calls(effects, facts, out=None):
+    """The calls on the way through `effects` that the facts select: a branch the facts decide is followed, one they do not decide
+    is followed on both sides (see taken_outcomes)."""
+    from sa.teval import teval, Unknown
+    out = [] if out is None else out
+    for e in effects:
+        if not isinstance(e, App):
+            continue
+        if e.op == "eff:if":
+            try:
+                g = teval(norm_cond(e.args[0]), facts)
+                taken_calls(e.args[1].args if g else e.args[2].args, facts, out)
+            except Unknown:
+                taken_calls(e.args[1].args, facts, out)
+                taken_calls(e.args[2].args, facts, out)
+        elif e.op in ("eff:loop",):
+            taken_calls(e.args[1].args, facts, out)
+        elif e.op == "eff:partial":
+            taken_calls(e.args[0].args, facts, out)
+        elif e.op == "eff:alts":
+            for alt in e.args:
+                taken_calls(alt.args, facts, out)
+        elif e.op == "eff:call":
+            out.append(e.args[0])
+    return out
+
+
+def subcommand_dispatch(ctx, rid, modname, floor=2):
+    """Sub-command dispatch of a command module, derived from the module itself: `add_arguments` defines, per sub-parser, the name of
+    the sub-command and its options; `main(**kwargs)` selects by `kwargs[<dest>] == <name>`.  Under each name, main (and the module
+    functions it hands **kwargs to) may read only options that sub-parser defines - a swapped or inverted dispatch makes a
+    sub-command read the options of its sibling, which argparse never set."""
+    from sa.index import walk_no_nested
+    R = ctx.report
+    repo = ctx.repo
+    m = repo.mod(modname)
+    aa = repo.func(modname, "add_arguments")
+    mainf = repo.func(modname, "main")
+    ev = ctx.ev
+    R.rule(rid, floor, "under each sub-command name main reads only the options its own sub-parser defines")
+
+    def dest_of(call):
+        for k in call.keywords:
+            if k.arg == "dest" and isinstance(k.value, ast.Constant):
+                return k.value.value
+        flags = [a.value for a in call.args if isinstance(a, ast.Constant) and isinstance(a.value, str)]
+        longs = [f for f in flags if f.startswith("--")] or flags
+        return longs[0].lstrip("-").replace("-", "_") if longs else None
+
+    parsers = {}   # variable name -> {"name": sub-command value or None (parent), "opts": set}
+    dest_key = None
+    helper_opts = {}
+    for f in m.functions.values():
+        if f is aa or not f.params():
+            continue
+        p0 = f.params()[0]
+        opts = {dest_of(c) for c in walk_no_nested(f.node) if isinstance(c, ast.Call) and isinstance(c.func, ast.Attribute) and c.func.attr == "add_argument"
+                and isinstance(c.func.value, ast.Name) and c.func.value.id == p0}
+        if opts:
+            helper_opts[f.name] = {o for o in opts if o}
+    for n in walk_no_nested(aa.node):
+        if isinstance(n, ast.Assign) and len(n.targets) == 1 and isinstance(n.targets[0], ast.Name) and isinstance(n.value, ast.Call) \
+                and isinstance(n.value.func, ast.Attribute):
+            if n.value.func.attr == "add_parser" and n.value.args:
+                try:
+                    parsers[n.targets[0].id] = {"name": ev.const(n.value.args[0], m), "opts": set(), "via": ast.unparse(n.value.func.value)}
+                except AnalysisError:
+                    raise AnalysisError(f"{modname}.add_arguments: sub-command name is not a constant: {ast.unparse(n.value.args[0])[:60]}")
+            elif n.value.func.attr == "add_subparsers":
+                for k in n.value.keywords:
+                    if k.arg == "dest":
+                        try:
+                            dv = ev.const(k.value, m)
+                        except AnalysisError:
+                            continue
+                        parsers.setdefault(n.targets[0].id, {"name": None, "opts": set(), "via": "", "dest": dv})
+    for n in walk_no_nested(aa.node):
+        if isinstance(n, ast.Call) and isinstance(n.func, ast.Attribute) and n.func.attr == "add_argument" and isinstance(n.func.value, ast.Name) \
+                and n.func.value.id in parsers:
+            d_ = dest_of(n)
+            if d_:
+                parsers[n.func.value.id]["opts"].add(d_)
+        if isinstance(n, ast.Call) and isinstance(n.func, ast.Name) and n.func.id in helper_opts and n.args and isinstance(n.args[0], ast.Name) \
+                and n.args[0].id in parsers:
+            parsers[n.args[0].id]["opts"] |= helper_opts[n.func.id]
+    # the innermost level of sub-commands that main dispatches on: sub-parsers registered through an add_subparsers(dest=...) object
+    levels = {}
+    for var, p in parsers.items():
+        if p["name"] is not None and p["via"] in parsers and "dest" in parsers[p["via"]]:
+            levels.setdefault(parsers[p["via"]]["dest"], []).append(p)
+    outs = [o for o in Evaluator(repo, inline_depth=0).outcomes(mainf)]
+    KW = Sym("param:kwargs")
+    used_dest = {s_.args[1].v for o in outs for t in list(o.conds) + list(all_effects(o.effects)) for s_ in subterms(t)
+                 if isinstance(s_, App) and s_.op == "idx" and s_.args[0] == KW and isinstance(s_.args[1], Const) and s_.args[1].v in levels}
+    if len(used_dest) != 1:
+        raise AnalysisError(f"{modname}.main: dispatch key not recognised (sub-parser dests {sorted(levels)}, read {sorted(used_dest)})")
+    dest_key = used_dest.pop()
+    subs = levels[dest_key]
+    # options of the enclosing parsers are available to every sub-command
+    common = {dest_key}
+    for var, p in parsers.items():
+        if p["name"] is not None and not any(p is s_ for s_ in subs):
+            common |= p["opts"]
+
+    def reads_of_function(fi, depth=0):
+        """kwargs keys a module function called with **kwargs reads (its own body and, one level, what it hands **kwargs on to)"""
+        a = fi.node.args
+        if a.kwarg is None:
+            return set()
+        kw = a.kwarg.arg
+        out = set()
+        for n in walk_no_nested(fi.node):
+            if isinstance(n, ast.Subscript) and isinstance(n.value, ast.Name) and n.value.id == kw and isinstance(n.slice, ast.Constant):
+                out.add(n.slice.value)
+            if isinstance(n, ast.Call) and isinstance(n.func, ast.Attribute) and n.func.attr == "get" and isinstance(n.func.value, ast.Name) and n.func.value.id == kw \
+                    and n.args and isinstance(n.args[0], ast.Constant):
+                pass  # .get(): tolerant of an absent option
+            if depth < 2 and isinstance(n, ast.Call) and any(k.arg is None and isinstance(k.value, ast.Name) and k.value.id == kw for k in n.keywords):
+                r = repo.resolve_expr(fi.module, n.func)
+                if r and r[0] == "func":
+                    out |= reads_of_function(r[1], depth + 1)
+        return out
+    n_checked = 0
+    for p in subs:
+        facts = {App("idx", (KW, Const(dest_key))): p["name"]}
+        reads, reached = set(), False
+        for o in taken_outcomes(outs, facts, strict=False):
+            if o.kind != "return":
+                continue
+            reached = True
+            calls = taken_calls(o.effects, facts)
+            for c in calls:
+                for s_ in subterms(c):
+                    if isinstance(s_, App) and s_.op == "idx" and s_.args[0] == KW and isinstance(s_.args[1], Const):
+                        reads.add(s_.args[1].v)
+                if c.op == "call" and isinstance(c.args[0], Ref) and c.args[0].kind == "func" and any(isinstance(x, App) and x.op == "starkw" and x.args[0] == KW for x in c.args):
+                    reads |= reads_of_function(c.args[0].obj)
+        foreign = sorted(reads - p["opts"] - common)
+        n_checked += 1
+        R.check(rid, reached and not foreign, f"{modname}: sub-command {p['name']!r}", mod=m, node=mainf.node, function=ctx.fq(mainf),
+                expected=f"reads only {sorted(p['opts'] | common)}", found=(f"reads {foreign}: options of another sub-command, never set for {p['name']!r}" if foreign else
+                                                                             "no normal path for this sub-command"), key_extra=str(p["name"]))
+    if n_checked < floor:
+        raise AnalysisError(f"{modname}: only {n_checked} sub-commands recognised")
+
